@@ -24,8 +24,9 @@ Inductive expr :=
 | EVars (ys : list var)                     (* the object of one of ys: alias, NumPy view, slice, join *)
 | EElem (ys : list var)                     (* one reference followed from one of ys *)
 | EFresh (s : site) (ys : list var)         (* new object; its references are among the values of ys *)
-| ECall (s : site) (g : nat) (args : list (list var)) (W : aset)  (* function g of the program; W: closure certificate
-                                                                     for the arguments g may write *)
+| ECall (sr ss : site) (g : nat) (args : list (list var)) (W : aset)
+      (* function g of the program.  sr: the new objects reachable from its result, ss: the other new objects it may
+         store into what it writes; W: closure certificate for the arguments g may write deeply *)
 | ECallback (s : site) (args : list (list var)).  (* unknown callee (rule 6): writes nothing, what it returns or
                                                      allocates may reference anything reachable from its arguments *)
 
@@ -45,13 +46,15 @@ Record fn := mkfn {
   fname : string;                    (* "module.function" or "module.Class.method" *)
   fflags : list (string * string);   (* the constant bindings of this variant (rule 2), e.g. ("inplace","True") *)
   fparams : list string;
-  fwr : list param;                  (* summary: parameters whose reachable objects may be written *)
-  fesc : list param;                 (* summary: parameters whose reachable objects may be referenced by the result,
-                                        by a written object or by an escaping new object *)
+  fwr0 : list param;                 (* summary: parameters whose object itself may be written *)
+  fwr : list param;                  (* summary: parameters whose reachable objects may all be written *)
+  fesc : list param;                 (* summary: parameters whose reachable objects the result may reference *)
+  fsto : list param;                 (* summary: parameters whose reachable objects may get stored into written objects *)
   fenv : list aset;                  (* certificate: abstract value of every variable *)
   fcont : list aset;                 (* certificate: what objects of a site may reference *)
   fcontp : aset;                     (* certificate: what may have been stored into (objects of) parameters *)
-  fE : aset;                         (* certificate: closed set of everything that escapes *)
+  fE : aset;                         (* certificate: closed set of everything the result may reach *)
+  fS : aset;                         (* certificate: closed set of everything stored into parameters may reach *)
   fbody : cmd }.
 Definition prog := list fn.
 
@@ -66,8 +69,10 @@ Definition amem (a : aobj) (A : aset) : bool := existsb (aobj_eqb a) A.
 Definition asub (A B : aset) : bool := forallb (fun a => amem a B) A.
 Definition nmem (n : nat) (l : list nat) : bool := existsb (Nat.eqb n) l.
 
+Definition summary := (list param * list param * list param * list param)%type.   (* wr0, wr, esc, sto *)
+
 Section Check.
-  Variable sums : list (list param * list param).   (* (fwr, fesc) of every function of the program *)
+  Variable sums : list summary.   (* summaries of every function of the program *)
   Variable f : fn.
   Definition env (x : var) : aset := nth x (fenv f) [].
   Definition cont (s : site) : aset := nth s (fcont f) [].
@@ -78,16 +83,25 @@ Section Check.
   Definition aclosed (A : aset) : bool := asub (aelem A) A.
   Definition aparam_ok (l : list param) (a : aobj) : bool :=
     match a with ASite _ => true | AArg p | AIn p => nmem p l end.
+  (* may this function write abstract object a, storing references to S into it? *)
+  Definition wtarget_ok (S : aset) (a : aobj) : bool :=
+    match a with
+    | ASite s => asub S (cont s)
+    | AArg p => (nmem p (fwr0 f) || nmem p (fwr f)) && asub S (fcontp f)
+    | AIn p => nmem p (fwr f) && asub S (fcontp f)
+    end.
 
-  Definition check_call (x : var) (s : site) (wr esc : list param) (args : list (list var)) (W : aset) : bool :=
-    let A := cont s in
-    amem (ASite s) A && aclosed A && asub A (env x)
-    && forallb (fun p => asub (avars (nth p args [])) A) esc
+  Definition check_call (x : var) (sr ss : site) (sm : summary) (args : list (list var)) (W : aset) : bool :=
+    let '(wr0, wr, esc, sto) := sm in
+    let R := cont sr in let S := cont ss in
+    amem (ASite sr) R && aclosed R && asub R (env x)
+    && forallb (fun p => asub (avars (nth p args [])) R) esc
+    && amem (ASite ss) S && amem (ASite sr) S && aclosed S
+    && forallb (fun p => asub (avars (nth p args [])) S) sto
     && forallb (fun p => asub (avars (nth p args [])) W) wr
     && aclosed W
-    && forallb (fun a => match a with
-                         | ASite s' => asub A (cont s')
-                         | AArg p | AIn p => nmem p (fwr f) && asub A (fcontp f) end) W.
+    && forallb (wtarget_ok S) W
+    && forallb (fun p => forallb (wtarget_ok S) (avars (nth p args []))) wr0.
 
   Definition check_def (x : var) (e : expr) : bool :=
     match e with
@@ -95,17 +109,14 @@ Section Check.
     | EVars ys => asub (avars ys) (env x)
     | EElem ys => asub (aelem (avars ys)) (env x)
     | EFresh s ys => amem (ASite s) (env x) && asub (avars ys) (cont s)
-    | ECall s g args W =>
+    | ECall sr ss g args W =>
         match nth_error sums g with
-        | Some (wr, esc) => check_call x s wr esc args W
+        | Some sm => check_call x sr ss sm args W
         | None => false end
-    | ECallback s args => check_call x s [] (seq 0 (List.length args)) args []
+    | ECallback s args => check_call x s s ([], [], seq 0 (List.length args), []) args []
     end.
 
-  Definition check_store (ys vs : list var) : bool :=
-    forallb (fun a => match a with
-                      | ASite s => asub (avars vs) (cont s)
-                      | AArg p | AIn p => nmem p (fwr f) && asub (avars vs) (fcontp f) end) (avars ys).
+  Definition check_store (ys vs : list var) : bool := forallb (wtarget_ok (avars vs)) (avars ys).
 
   Fixpoint check_cmd (c : cmd) : bool :=
     match c with
@@ -125,10 +136,11 @@ Section Check.
 
   Definition check_fn : bool :=
     check_params && check_cmd (fbody f)
-    && aclosed (fE f) && asub (fcontp f) (fE f) && forallb (aparam_ok (fesc f)) (fE f).
+    && aclosed (fE f) && forallb (aparam_ok (fesc f)) (fE f)
+    && aclosed (fS f) && asub (fcontp f) (fS f) && forallb (aparam_ok (fsto f)) (fS f).
 End Check.
 
-Definition summaries (P : prog) : list (list param * list param) := map (fun f => (fwr f, fesc f)) P.
+Definition summaries (P : prog) : list summary := map (fun f => (fwr0 f, fwr f, fesc f, fsto f)) P.
 Definition check_prog (P : prog) : bool := forallb (check_fn (summaries P)) P.
 
 (* ------------------------------------------------------------------------------------------------ *)
@@ -158,15 +170,15 @@ Definition may_return (fnm : string) (fl : list (string * string)) (pn : string)
 Definition pname (f : fn) (p : param) : string := nth p (fparams f) "?".
 (* a function is clean if its (checked) summary stays within the exception table *)
 Definition fn_clean (f : fn) : bool :=
-  forallb (fun p => may_write (fname f) (fflags f) (pname f p)) (fwr f)
-  && forallb (fun p => may_return (fname f) (fflags f) (pname f p)) (fesc f).
+  forallb (fun p => may_write (fname f) (fflags f) (pname f p)) (fwr0 f ++ fwr f)
+  && forallb (fun p => may_return (fname f) (fflags f) (pname f p)) (fesc f ++ fsto f).
 (* [api]: indices (in the program) of the variants of the exported functions *)
 Definition api_ok (P : prog) (api : list nat) : bool :=
   check_prog P && forallb (fun g => match nth_error P g with Some f => fn_clean f | None => false end) api.
 (* what is NOT clean: used by the harness to print a readable diagnosis *)
 Definition fn_report (f : fn) : list string * list string :=
-  (map (pname f) (filter (fun p => negb (may_write (fname f) (fflags f) (pname f p))) (fwr f)),
-   map (pname f) (filter (fun p => negb (may_return (fname f) (fflags f) (pname f p))) (fesc f))).
+  (map (pname f) (filter (fun p => negb (may_write (fname f) (fflags f) (pname f p))) (fwr0 f ++ fwr f)),
+   map (pname f) (filter (fun p => negb (may_return (fname f) (fflags f) (pname f p))) (fesc f ++ fsto f))).
 
 (* ------------------------------------------------------------------------------------------------ *)
 (* 4. Concrete (relational) semantics over a heap of objects with identities                        *)
@@ -190,17 +202,22 @@ Definition argsel (ps : list param) (args : list val) : list val := map (fun p =
 Definition closed (H : heap) : Prop := forall o ob r, H o = Some ob -> In r (orefs ob) -> H r <> None.
 Definition allocated (H : heap) (vs : list val) : Prop := forall a, In (Some a) vs -> H a <> None.
 
-(* what a call with summary (wr, esc) may do: the meaning of a summary *)
-Record callspec (wr esc : list param) (H : heap) (args : list val) (H' : heap) (r : val) : Prop := {
+(* what a call with summary (wr0, wr, esc, sto) may do: the meaning of a summary *)
+Definition may_touch (wr0 wr : list param) (H : heap) (args : list val) (o : oid) : Prop :=
+  In (Some o) (argsel wr0 args) \/ reach_from H (argsel wr args) o.
+Record callspec (sm : summary) (H : heap) (args : list val) (H' : heap) (r : val) : Prop := {
   cs_dom : forall o, H o <> None -> H' o <> None;
-  cs_frame : forall o, H o <> None -> ~ reach_from H (argsel wr args) o -> H' o = H o;
+  cs_frame : forall o, H o <> None -> ~ may_touch (fst (fst (fst sm))) (snd (fst (fst sm))) H args o -> H' o = H o;
   cs_closed : closed H -> allocated H args -> closed H';
-  cs_esc : exists NE : oid -> Prop,
-      (forall o, NE o -> H o = None /\ H' o <> None)
-      /\ (forall o ob q, NE o -> H' o = Some ob -> In q (orefs ob) -> NE q \/ reach_from H (argsel esc args) q)
+  cs_esc : exists NR NS : oid -> Prop,
+      let RE := reach_from H (argsel (snd (fst sm)) args) in
+      let RS := reach_from H (argsel (snd sm) args) in
+      (forall o, NR o \/ NS o -> H o = None /\ H' o <> None)
+      /\ (forall o ob q, NR o -> H' o = Some ob -> In q (orefs ob) -> NR q \/ RE q)
+      /\ (forall o ob q, NS o -> H' o = Some ob -> In q (orefs ob) -> NS q \/ NR q \/ RS q)
       /\ (forall o ob ob' q, H o = Some ob -> H' o = Some ob' -> In q (orefs ob') ->
-                             In q (orefs ob) \/ NE q \/ reach_from H (argsel esc args) q)
-      /\ (forall o, r = Some o -> NE o \/ reach_from H (argsel esc args) o) }.
+                             In q (orefs ob) \/ NS q \/ NR q \/ RS q)
+      /\ (forall o, r = Some o -> NR o \/ RE o) }.
 
 Inductive outcome := ONormal | OReturn (r : val).
 Definition result_of (o : outcome) : val := match o with ONormal => None | OReturn r => r end.
